@@ -142,15 +142,30 @@ pub fn benign_header_line(rng: &mut Rng) -> Vec<u8> {
 }
 
 pub fn body_bytes(rng: &mut Rng, n: usize) -> Vec<u8> {
-    let mode = rng.below(4);
-    (0..n)
+    let mode = rng.below(5);
+    let mut v: Vec<u8> = (0..n)
         .map(|i| match mode {
             0 => b'a' + (i % 26) as u8,
             1 => *rng.pick(&[b'\r', b'\n', b'x', b' ', 0u8, 0xffu8, b':']),
             2 => rng.byte(),
             _ => b"GET / HTTP/1.1\r\n\r\n"[i % 18],
         })
-        .collect()
+        .collect();
+    if mode == 4 && n >= 2 {
+        // header-terminator look-alikes exactly at the edges of the body
+        let pat: &[u8] = *rng.pick(&[&b"\r\n\r\n"[..], &b"\r\n"[..], &b"\n\r\n"[..], &b"\r\n\r"[..]]);
+        let k = pat.len().min(n);
+        if rng.chance(1, 2) {
+            v[n - k..].copy_from_slice(&pat[pat.len() - k..]);
+        } else {
+            v[..k].copy_from_slice(&pat[..k]);
+        }
+        if rng.chance(1, 3) && n >= 2 * k {
+            v[..k].copy_from_slice(&pat[..k]);
+            v[n - k..].copy_from_slice(&pat[pat.len() - k..]);
+        }
+    }
+    v
 }
 
 #[derive(Clone, Debug)]
